@@ -79,7 +79,7 @@ inductive PSrc where
 
 structure PipeInst where
   shape : PShape
-  leaves : List (St V)
+  leaves : List (PipeRegistry.Leaf V)
   source : Option PSrc := none
   sink : Option (SinkModels.Sk V) := none
   /-- inputs fed so far (`f` / `sink`), oldest first -/
